@@ -352,6 +352,27 @@ func genC11(e *emitter, tier string, seed uint64) {
 			}
 		}
 	}
+	// amount relations at the edge of uint64: one output within a few fees of 2^64 against small and huge inputs (a
+	// predicate written as inputs >= outputs + fee wraps; sums of several outputs are kept below 2^64 on purpose)
+	for k := 0; k < 40; k++ {
+		tx := genFeeTx(r, 1, 1+r.n(2), 35, 40)
+		for _, o := range tx.Outputs {
+			o.Satoshis = 0
+		}
+		fq := feeQuotes[r.n(len(feeQuotes))]
+		f, _ := tx.EstimateFeesPaid(parseFq(fq))
+		var fee uint64 = 100
+		if f != nil {
+			fee = f.TotalFeePaid
+		}
+		const top = ^uint64(0) // 2^64-1
+		outs := []uint64{top, top - 1, top - fee, top - fee + 1, top - fee - 1, top - fee/2, 1 << 63, 1<<63 - 1}
+		ins := []uint64{0, 1, fee - 1, fee, fee + 1, 1000, 1 << 63, top, top - 1}
+		tx.Outputs[0].Satoshis = outs[k%len(outs)]
+		tx.Inputs[0].PreviousTxSatoshis = ins[(k/len(outs)+k)%len(ins)]
+		e.run("C11.fee", descTx(tx), fq)
+		e.note("fee.uint64-edge")
+	}
 	// signed sizes from the real signer
 	m := 60
 	if tier != "quick" {
